@@ -136,9 +136,18 @@ def putUvarintAux : Nat → Nat → Bytes
   | f + 1, v => if v < 128 then [UInt8.ofNat v] else UInt8.ofNat (v % 128 + 128) :: putUvarintAux f (v / 128)
 def putUvarint (v : Nat) : Bytes := putUvarintAux 9 v
 
-/-- a tagged-field section: count, then (tag, size, data) each -/
+/-- the fields of a tagged-field section: (uvarint tag, uvarint size, data) each -/
+def encodeTagFields (tags : List (Nat × Bytes)) : Bytes :=
+  tags.flatMap fun t => putUvarint t.1 ++ putUvarint t.2.length ++ t.2
+
+/-- a tagged-field section: uvarint count, then the fields -/
 def encodeTags (tags : List (Nat × Bytes)) : Bytes :=
-  putUvarint tags.length ++ tags.flatMap fun t => putUvarint t.1 ++ putUvarint t.2.length ++ t.2
+  putUvarint tags.length ++ encodeTagFields tags
+
+/-- Well-formed tagged-field section: count and tags fit a uint64 (what a uvarint carries), every field size is
+below 2^63 (`int(size)` is then non-negative; a Kafka frame is < 2^31 bytes anyway). -/
+def TagsWf (tags : List (Nat × Bytes)) : Prop :=
+  tags.length < 2 ^ 64 ∧ ∀ t ∈ tags, t.1 < 2 ^ 64 ∧ t.2.length < 2 ^ 63
 
 def encodeNullableString : Option Bytes → Bytes
   | none => [0xff, 0xff]
@@ -190,5 +199,20 @@ def flexibleHeader (respFlex : Int → Int → Bool) (key ver : Int) : Bool := r
 
 def responseHeader (respFlex : Int → Int → Bool) (key ver corr : Int) : Bytes :=
   encodeResponseHeader corr (flexibleHeader respFlex key ver)
+
+/-- `SkipResponseHeader(apiKey, apiVersion, data)` (the proxy runs it on backend replies): `some body` or `none` (= `nil, false`).
+`known k` = `kmsg.ResponseForKey(k) != nil`; `respFlex` = that response's `IsFlexible()` at the version.  NOTE: unlike
+`EncodeResponse` it has no ApiVersions exception (its callers pass Produce, Fetch and the group keys only). -/
+def skipResponseHeader (known : Int → Bool) (respFlex : Int → Int → Bool) (k v : Int) (data : Bytes) : GoResult (Option Bytes) :=
+  if data.length < 4 then .ok none
+  else if !known k then .ok none
+  else if respFlex k v then
+    if (4 : Int) ≥ data.length then .ok none
+    else (goSlice data 4 data.length).bind fun tail =>          -- newByteReader(data[pos:])
+      match skipTagged { buf := tail, pos := 0 } with
+      | .ok r => (goSlice data (4 + r.pos) data.length).bind fun b => .ok (some b)
+      | .err => .ok none
+      | .panic => .panic
+  else (goSlice data 4 data.length).bind fun b => .ok (some b)
 
 end KafVerif.ProtoHeader
